@@ -136,6 +136,8 @@ def handleV1 (c : Int) (mode : FaultMode) (k : Nat) (sc : Scenario) : Option Str
   let slots := sc.slots
   match sc.op with
   | .api op =>
+    -- with same-handle follow-ups the harness first reads everything through the handle under test
+    let st := if sc.same.isSome then (st.run (snapshotOps slots)).1 else st
     let (st1, trace, out) := st.stepF ⟨mode, k⟩ op
     let calls := joinOr "," (trace.map (renderCall st.fs))
     let died := out == .crash
